@@ -13,6 +13,11 @@ use serde::{Deserialize, Serialize};
 pub enum Mutation {
     None,
     FlipId(u8),
+    /// the same 64-bit pattern XORed into two different 8-byte words of the id (or pubkey): differences that cancel
+    /// when words are folded together instead of compared one by one
+    XorWords { pubkey: bool, a: u8, b: u8, mask: u64 },
+    /// two 8-byte words of the id exchanged (sums and XORs over the words are unchanged)
+    SwapIdWords(u8, u8),
     FlipPubkey(u8),
     FlipSig(u16),
     CreatedAt(bool),
@@ -78,6 +83,31 @@ fn apply(m: &Mutation, e: &MEvent, secret: &[u8; 32]) -> MEvent {
     match m {
         Mutation::None => {}
         Mutation::FlipId(b) => x.id = flip(&x.id, *b as usize),
+        Mutation::XorWords { pubkey, a, b, mask } => {
+            let src = if *pubkey { x.pubkey.clone() } else { x.id.clone() };
+            let mut bytes = crate::model::unhex(&src).unwrap_or_else(|| vec![0u8; 32]);
+            let (wa, wb) = ((*a as usize) % 4, (*b as usize) % 4);
+            let wb = if wa == wb { (wb + 1) % 4 } else { wb };
+            let mask = if *mask == 0 { 1 } else { *mask };
+            for (k, m) in mask.to_le_bytes().iter().enumerate() {
+                bytes[wa * 8 + k] ^= m;
+                bytes[wb * 8 + k] ^= m;
+            }
+            if *pubkey {
+                x.pubkey = hex(&bytes);
+            } else {
+                x.id = hex(&bytes);
+            }
+        }
+        Mutation::SwapIdWords(a, b) => {
+            let mut bytes = crate::model::unhex(&x.id).unwrap_or_else(|| vec![0u8; 32]);
+            let (wa, wb) = ((*a as usize) % 4, (*b as usize) % 4);
+            let wb = if wa == wb { (wb + 1) % 4 } else { wb };
+            for k in 0..8 {
+                bytes.swap(wa * 8 + k, wb * 8 + k);
+            }
+            x.id = hex(&bytes);
+        }
         Mutation::FlipPubkey(b) => x.pubkey = flip(&x.pubkey, *b as usize),
         Mutation::FlipSig(b) => x.sig = flip(&x.sig, *b as usize),
         Mutation::CreatedAt(up) => x.created_at = if *up { x.created_at.wrapping_add(1) } else { x.created_at.wrapping_sub(1) },
@@ -139,6 +169,9 @@ fn mutation_strategy() -> BoxedStrategy<Mutation> {
         3 => Just(Mutation::None),
         2 => any::<u8>().prop_map(Mutation::FlipId),
         2 => any::<u8>().prop_map(Mutation::FlipPubkey),
+        2 => (prop::bool::weighted(0.25), 0u8..4, 0u8..4, prop_oneof![3 => (0u32..64).prop_map(|b| 1u64 << b), 1 => any::<u64>()])
+            .prop_map(|(pubkey, a, b, mask)| Mutation::XorWords { pubkey, a, b, mask }),
+        1 => (0u8..4, 0u8..4).prop_map(|(a, b)| Mutation::SwapIdWords(a, b)),
         2 => (0u16..512).prop_map(Mutation::FlipSig),
         1 => any::<bool>().prop_map(Mutation::CreatedAt),
         1 => any::<bool>().prop_map(Mutation::Kind),
@@ -439,6 +472,8 @@ fn mutation_name(m: &Mutation) -> &'static str {
     match m {
         Mutation::None => "none",
         Mutation::FlipId(_) => "id-bit",
+        Mutation::XorWords { .. } => "two-words-same-xor",
+        Mutation::SwapIdWords(..) => "id-words-swapped",
         Mutation::FlipPubkey(_) => "pubkey-bit",
         Mutation::FlipSig(_) => "sig-bit",
         Mutation::CreatedAt(_) => "created_at",
